@@ -116,6 +116,17 @@ def run(P, chk, tier):
         if fdk.get("k") == "Ref" and fdk["ref"]["id"] in sd:
             fdk = sk(sd[fdk["ref"]["id"]])
         okfd = fdk.get("k") == "Call" and fdk.get("fn") == "get_dns_fd" and pp(sk(fdk["a"][1])) == "&%s->addr" % entv
+        if not okfd and fdk.get("k") == "Ref" and ds:
+            # the choice written out: the IPv6 socket exactly when the entry's address is an IPv6 one
+            fam = "%s->addr.ss_family" % entv
+            af6 = _af_inet6(P)
+            per = []
+            for d in ds:
+                vals = [g.key[2] for g in d if g.kind == "cmp" and g.op == "==" and g.key[0] == pp(fdk) and isinstance(g.key[2], str)]
+                per.append(af6 is not None and any(
+                    (v.endswith("->v6fd") and guard.d_holds(d, "==", fam, af6)) or
+                    (v.endswith("->v4fd") and guard.d_holds(d, "!=", fam, af6)) for v in vals))
+            okfd = all(per)
         chk.site(r3, tb, ir.loc(c), pp(c)[:60], okd and oknn and okfd,
                  "destination is the entry's address: %s; entry non-NULL: %s; socket chosen by that address: %s" % (okd, oknn, okfd))
         okb = pp(sk(c["a"][1])) == pk
@@ -140,7 +151,15 @@ def run(P, chk, tier):
     for b, c in td.calls("forward_query"):
         ds = an.before_node(c["n"]) or []
         ok = all(guard.d_holds(d, "!=", pp(sk(c["a"][0])), 0) for d in ds)
-        chk.site(r6, td, ir.loc(c), pp(c)[:50], ok, "under %s != 0" % pp(sk(c["a"][0])))
+        inside = False
+        if not ok and fq.params and pp(sk(c["a"][0])) == "bind_fd":
+            # the test may sit in the forwarder itself: everything it does to the outside is behind it
+            p0 = fq.params[0]["ref"]["name"]
+            anq = E.analysis(fq)
+            effects = [c2 for b2, c2 in fq.all_nodes() if c2.get("k") == "Call" and c2.get("fn") in ("sendto", "fw_query_put", "send", "write")]
+            inside = bool(effects) and all(all(guard.d_holds(d, "!=", p0, 0) for d in (anq.before_node(c2["n"]) or [None]) if d is not None)
+                                           and anq.before_node(c2["n"]) for c2 in effects)
+        chk.site(r6, td, ir.loc(c), pp(c)[:50], ok or inside, "under %s != 0%s" % (pp(sk(c["a"][0])), " (tested inside forward_query before anything is sent or remembered)" if inside else ""))
     mf = P.func("main", "iodined.c")
     an = E.analysis(mf)
     nb = 0
@@ -152,6 +171,16 @@ def run(P, chk, tier):
             chk.site(r6, mf, ir.loc(x), pp(x)[:50], ok, "under bind_enable != 0")
     if nb == 0:
         raise AnalysisBroken("C20.R6: forwarding socket is never opened")
+
+
+def _af_inet6(P):
+    """The constant get_dns_fd compares the address family with."""
+    g = P.func("get_dns_fd", "iodined.c")
+    for b in g.blocks.values():
+        c = sk(b.term["cond"]) if b.term and b.term.get("cond") is not None else None
+        if c is not None and c.get("k") == "Bin" and c["op"] == "==" and "ss_family" in pp(c["a"][0]):
+            return cval(sk(c["a"][1]))
+    return None
 
 
 def _unwrap(e):
@@ -233,9 +262,12 @@ def ring(P, E, chk):
         ok_store = len(stores) == 1 and stores[0][1] == ({"fwq_ix": 1}, 0) and stores[0][2] == esize
         wrapped = fin == ({}, 0) and w.implied(st, ({"fwq_ix": 1}, 1 - size))
         advanced = fin == ({"fwq_ix": 1}, 1) and w.implied(st, ({"fwq_ix": -1}, size - 2))
+        # (old + 1) % size with 0 <= old < size is old + 1, or 0 when that reaches the size
+        modular = fin == ({"(fwq_ix + 1)%%%d" % size: 1}, 0)
+        wrapped = wrapped or modular
         line = ir.loc(stores[0][3]) if stores else put.line
         chk.site(r5, put, line, "fw_query_put path", ok_store and (wrapped or advanced),
-                 "stores at the cursor and %s" % ("wraps to 0" if wrapped else "advances by one") if ok_store and (wrapped or advanced) else
+                 "stores at the cursor and %s" % ("advances modulo the size" if modular else "wraps to 0" if wrapped else "advances by one") if ok_store and (wrapped or advanced) else
                  "stores at %s (%d store(s)), cursor becomes %s: an entry can be overwritten out of turn or the cursor does not move" % (
                      [L.show(s[1]) for s in stores], len(stores), L.show(fin)))
     fam = fieldinv.Family("forward ring cursor", r"^()(fwq_ix)$", ("fwq_ix",),
@@ -248,6 +280,12 @@ def ring(P, E, chk):
     outp = get.params[1]["ref"]["name"]
     idp = get.params[0]["ref"]["name"]
     loops = [b for b in get.blocks.values() if b.term and b.term.get("kind") == "ForStmt" and b.term.get("cond") is not None]
+    indexed = [b for b in loops if sk(b.term["cond"]).get("k") == "Bin" and sk(sk(b.term["cond"])["a"][0]).get("k") == "Ref" and
+               (sk(sk(b.term["cond"])["a"][0]).get("t") or {}).get("k") == "int"]
+    if len(indexed) != 1 or len(loops) != 1:
+        chk.undecided(r5, get, get.line, "lookup scans every slot", "the lookup is not a single for-loop over an integer index "
+                      "(%d loops): whether it visits every slot and reports only a matching one is not decided" % len(loops))
+        return ring_writers(P, chk, put)
     okscan = len(loops) == 1 and pp(sk(loops[0].term["cond"])).replace(" ", "") in ("i<%d" % size, "i<FW_QUERY_CACHE_SIZE")
     bound = cval(sk(sk(loops[0].term["cond"])["a"][1])) if loops else None
     chk.site(r5, get, get.line, "lookup scans every slot", len(loops) == 1 and bound == size, "loop bound %s, array size %s" % (bound, size))
@@ -268,6 +306,10 @@ def ring(P, E, chk):
                      "a slot is reported without its id having matched")
     if nset < 2:
         raise AnalysisBroken("C20.R5: fw_query_get shape not recognised")
+    ring_writers(P, chk, put)
+
+
+def ring_writers(P, chk, put):
     # who may write a remembered entry: only the ring's own unit.  An entry "cleared" elsewhere (id = 0) still matches a
     # reply whose id is 0 - and dns_get_id() yields 0 for every datagram too short to carry a header.
     r7 = chk.rule("C20.R7", "entries are written only by the ring", "no function outside fw_query.c writes a field of a "
